@@ -70,7 +70,9 @@ def build(repo):
     vcs.append(VC("Cacheable:soundness:restriction-agrees", hyp2 + pre, z3.And(T.sub(R, O1), T.agreeP(O1, R, S1), T.sub(T.restrict(O2, S2), O2),
                                                                               T.agreeP(O2, T.restrict(O2, S2), S2), R == T.restrict(O2, S2)),
                   {"law": "soundness", "cls": "Cacheable"}))
-    vcs.append(VC("Cacheable:soundness:equal-fingerprint-equal-outcome", hyp2 + pre, T.ev_equiv(E, O1, O2), {"law": "soundness", "cls": "Cacheable"}))
+    R2 = T.restrict(O2, S2)
+    lemma = [T.sub(R, O1), T.agreeP(O1, R, S1), T.sub(R2, O2), T.agreeP(O2, R2, S2), R == R2]     # = the obligation proved just above (lemma chaining)
+    vcs.append(VC("Cacheable:soundness:equal-fingerprint-equal-outcome", hyp2 + pre + lemma, T.ev_equiv(E, O1, O2), {"law": "soundness", "cls": "Cacheable"}))
     # fingerprint differs whenever a value under a reported key differs / key sets differ (injectivity instance)
     kk = z3.Const("k!d", T.Key)
     vcs.append(VC("Cacheable:fingerprint:differs-on-reported-change",
